@@ -44,6 +44,7 @@ def run(chk):
     chk.rule("ENTRY", "no public entry point writes to a pre-existing object or a module-level container (summaries MUT, global writes)")
     chk.rule("PRIMv", "ColExpr.map_subtree interpreted on a stub tree using every child slot of every node class: input untouched, callback gets fresh copies, every node once, children before parents")
     chk.rule("PRIM", "map_subtree copies each node, rebuilds its children recursively and only then applies g")
+    chk.rule("STATE", "building a statement leaves no state behind: create_aliases interpreted twice on equal trees gives the same aliases (a mutable default or module-level counter would make query text depend on the queries built before)")
     chk.rule("UPD", "Cache.update interpreted on every verb sequence up to the bound never modifies the cache of its input table (every field compared before / after)")
     chk.rule("CLONEv", "AstNode.clone() interpreted on a stub pipeline with every verb class, aliases and a self-join: input untouched, all nodes / expression objects / identities new, every column reference denotes the clone of its column")
     chk.rule("CLONE", "every _clone rebuilds all node-bearing and expression-bearing fields (clone() is deep-fresh)")
@@ -100,6 +101,20 @@ def run(chk):
         )  # fmt: skip
 
     from .. import cachesim
+
+    from ..interp import PyRaise as _PRs, SymbolicBranch as _SBs
+    from ..pipesim import RealWorld as _RWs, alias_name_scenarios as _anss
+    from ..rules.c17 import m_types_env as _mtes
+
+    sqlm_ = chk.repo.mod("backend.sql")
+    try:
+        for desc, ok_, detail in _anss(_RWs(chk.repo, _mtes(m))):
+            if "second build" in desc:
+                chk.ob("STATE", sqlm_, sqlm_.func("create_aliases"), f"create_aliases interpreted: {desc}", ok_, detail)
+    except (AnalysisError, _SBs) as e:
+        chk.undecided.append(f"STATE: create_aliases could not be interpreted ({str(e)[:140]})")
+    except _PRs as p_:
+        chk.ob("STATE", sqlm_, sqlm_.func("create_aliases"), "create_aliases on stub trees", False, f"create_aliases raises {p_.name}: {p_.msg}")
 
     cachesim.report(chk, m, "UPD", "C10", "input cache untouched by Cache.update")
 
@@ -402,7 +417,7 @@ def _clone_rule(chk, sym):
             n += 1
             node = ci.methods["_clone"]
             ctor = any(
-                isinstance(c.func, (ast.Name, ast.Attribute)) and (norm(c.func) in (ci.name, "self.__class__", "type(self)"))
+                isinstance(c.func, (ast.Name, ast.Attribute, ast.Call)) and (norm(c.func) in (ci.name, "self.__class__", "type(self)", "cls"))
                 for c in calls_in(node)
             )
             chk.ob("CLONE", ci.module, node, f"{ci.name}._clone constructs a new {ci.name}", ctor,
